@@ -243,16 +243,16 @@ func (r *RibEntry) CleanUpFace(faceId uint64) {
 		return
 	}
 
-	for i, route := range r.routes {
+	// Remove every route of this face (there may be one per origin)
+	remaining := make([]*Route, 0, len(r.routes))
+	for _, route := range r.routes {
 		if route.FaceID == faceId {
-			if i < len(r.routes)-1 {
-				copy(r.routes[i:], r.routes[i+1:])
-			}
-			r.routes = r.routes[:len(r.routes)-1]
 			readvertiseWithdraw(r.Name, route)
-			break
+		} else {
+			remaining = append(remaining, route)
 		}
 	}
+	r.routes = remaining
 	r.updateNexthopsEnc()
 	r.pruneIfEmpty()
 }
